@@ -343,6 +343,7 @@ func runScenarioIn(t *testing.T, sc *Scenario, h *History) {
 			srvEnd.rd.eofWithData = cs.SrvEOFWithData
 			srvEnd.faults = cs.SrvFaults
 			cliEnd.faults.Rendezvous = cs.SrvFaults.Rendezvous
+			cliEnd.faults.FailWriteAt = cs.CliFailWriteAt
 			halves[i] = [2]*SimConn{srvEnd, cliEnd}
 			ch := &ConnHistory{ID: i, TLSSent: -1, TLSRecv: -1, SrvCloseSeq: -1}
 			h.Conns[i] = ch
